@@ -1477,6 +1477,8 @@ where
         let mut should_continue = true;
 
         while nodes::last_child_is_open(container) {
+            #[cfg(comrak_verif)]
+            crate::verif::bump(0);
             container = container.last_child().unwrap();
             let ast = &mut *container.data.borrow_mut();
 
@@ -2109,6 +2111,8 @@ where
             NodeValue::CodeBlock(..) | NodeValue::HtmlBlock(..)
         ) {
             depth += 1;
+            #[cfg(comrak_verif)]
+            crate::verif::bump(1);
             self.find_first_nonspace(line);
             let indented = self.indent >= CODE_INDENT;
 
@@ -2945,6 +2949,8 @@ where
             let mut nch = node.first_child();
 
             while let Some(n) = nch {
+                #[cfg(comrak_verif)]
+                crate::verif::bump(9);
                 let mut this_bracket = false;
                 let mut emptied = false;
                 let n_ast = &mut n.data.borrow_mut();
@@ -2960,6 +2966,8 @@ where
                         while let Some(ns) = n.next_sibling() {
                             match ns.data.borrow().value {
                                 NodeValue::Text(ref adj) => {
+                                    #[cfg(comrak_verif)]
+                                    crate::verif::add(9, adj.len());
                                     root.push_str(adj);
                                     let sp = ns.data.borrow().sourcepos;
                                     spxv.push_back((sp, adj.len()));
